@@ -55,6 +55,10 @@ type msg struct {
 
 // New creates an aggregator
 func New(fun string, matcher matcher.Matcher, outFmt string, cache bool, interval, wait uint, dropRaw bool, out chan []byte) (*Aggregator, error) {
+	// must happen before we start the ticker, which can't handle a zero interval either
+	if err := validateParams(matcher, interval, wait); err != nil {
+		return nil, err
+	}
 	ticker := clock.AlignedTick(time.Duration(interval)*time.Second, time.Duration(wait)*time.Second, 2)
 	return NewMocked(fun, matcher, outFmt, cache, interval, wait, dropRaw, out, 2000, time.Now, ticker)
 }
@@ -64,15 +68,8 @@ func NewMocked(fun string, matcher matcher.Matcher, outFmt string, cache bool, i
 	if err != nil {
 		return nil, err
 	}
-	if matcher.Regex == "" {
-		return nil, errors.New("an aggregation needs a regex")
-	}
-	// the upper bounds also catch negative numbers that were converted to uint
-	if interval == 0 || interval > maxIntervalWait {
-		return nil, fmt.Errorf("aggregation interval must be between 1 and %d seconds", maxIntervalWait)
-	}
-	if wait > maxIntervalWait {
-		return nil, fmt.Errorf("aggregation wait must be between 0 and %d seconds", maxIntervalWait)
+	if err := validateParams(matcher, interval, wait); err != nil {
+		return nil, err
 	}
 
 	a := &Aggregator{
@@ -107,6 +104,20 @@ func NewMocked(fun string, matcher matcher.Matcher, outFmt string, cache bool, i
 
 // maxIntervalWait is the largest interval/wait we accept, in seconds (10 years)
 const maxIntervalWait = 10 * 365 * 24 * 3600
+
+func validateParams(matcher matcher.Matcher, interval, wait uint) error {
+	if matcher.Regex == "" {
+		return errors.New("an aggregation needs a regex")
+	}
+	// the upper bounds also catch negative numbers that were converted to uint
+	if interval == 0 || interval > maxIntervalWait {
+		return fmt.Errorf("aggregation interval must be between 1 and %d seconds", maxIntervalWait)
+	}
+	if wait > maxIntervalWait {
+		return fmt.Errorf("aggregation wait must be between 0 and %d seconds", maxIntervalWait)
+	}
+	return nil
+}
 
 type TsSlice []uint
 
